@@ -7,8 +7,8 @@ completion order; a Python enumeration of the same system must agree on all thre
 Conformance / replay: every order is forced on the REAL concurrent.futures.ProcessPoolExecutor
 used by run_bldfm_parallel: the task function (run_bldfm_single resp. run_bldfm_timeseries,
 module attributes resolved at call time) is wrapped before the pool forks; the wrapper computes
-the real result, then waits at a gate in shared memory until all tasks earlier in the prescribed
-order have passed.  A recording subclass of the executor observes the order in which the futures
+the real result, then waits at a gate in shared memory until the results of all tasks earlier in the
+prescribed order have ARRIVED in the parent (the gate counter is advanced by the parent's done callbacks).  A recording subclass of the executor observes the order in which the futures
 complete in the parent; it must equal the prescribed order (model trace == implementation trace),
 otherwise the run is a harness error, not a pass.
 Oracle per trace: for every tower and step conc/flx/grid equal the single run computed first in
@@ -140,9 +140,9 @@ def case_pool(case):
                 gate_err.value = 1
                 raise RuntimeError("gate timeout")
             time.sleep(0.0005)
-        time.sleep(0.012)
-        with ctr.get_lock():
-            ctr[pool_idx] += 1
+        # the counter is advanced by the PARENT when the future of the previous task completes there (done
+        # callback of the recording executor), so passing the gate happens-after the arrival of every earlier
+        # result in the parent: the forced completion order does not depend on timing
 
     def gated_single(config, tower, met_index=0, **kw):
         r = orig_single(config, tower, met_index=met_index, **kw)
@@ -166,13 +166,20 @@ def case_pool(case):
             self._vf_done = []
             self._vf_n = 0
             self._vf_workers = k.get("max_workers", a[0] if a else None)
+            self._vf_idx = len(pools)
             pools.append(self)
+
+        def _vf_arrived(self, n):
+            self._vf_done.append(n)
+            if self._vf_idx < npools:
+                with ctr.get_lock():
+                    ctr[self._vf_idx] += 1
 
         def submit(self, fn, *a, **k):
             fut = super().submit(fn, *a, **k)
             n = self._vf_n
             self._vf_n += 1
-            fut.add_done_callback(lambda f, n=n: self._vf_done.append(n))
+            fut.add_done_callback(lambda f, n=n: self._vf_arrived(n))
             return fut
 
     bi.run_bldfm_single, bi.run_bldfm_timeseries, bi.ProcessPoolExecutor = gated_single, gated_ts, RecordingPool
@@ -213,13 +220,15 @@ def case_pool(case):
 
 
 def cells(tier):
-    shapes = [(1, 1), (1, 2), (2, 1), (2, 2)] if tier == "quick" else [(1, 1), (1, 2), (2, 1), (2, 2), (1, 3), (3, 1), (3, 2), (2, 3)]
+    shapes = [(1, 1), (1, 2), (2, 1), (2, 2), (1, 3)] if tier == "quick" else [(1, 1), (1, 2), (2, 1), (2, 2), (1, 3), (3, 1), (3, 2), (2, 3)]
     for shape, strat, W, pt, cache in itertools.product(shapes, ("towers", "time", "both"), (1, 2, 3, 4, 5), (1, 4), (False, True)):
         nt, ns = shape
         ntasks = {"towers": nt, "time": ns, "both": nt * ns}[strat]
         npools = nt if strat == "time" else 1
         if tier == "quick" and W == 4 and ntasks < 4:
             continue  # W=3 and W=5 already cover "more workers than tasks" for these
+        if ntasks >= 6 and W >= 4 and (pt != 1 or cache):
+            continue  # 384-600 orders per cell: replayed once (one thread setting, cache off)
         yield {"shape": list(shape), "strategy": strat, "W": W, "parent_threads": pt, "cache": cache, "ntasks": ntasks, "npools": npools}
     if tier != "quick":
         for shape, strat, W in itertools.product([(2, 2), (1, 3)], ("towers", "time", "both"), (1, 2, 3)):
